@@ -61,6 +61,7 @@ func VerifC08Meaning() {
 	if err != nil {
 		return
 	}
+	symKnown("C08-line-break-forced-before-inline-element-with-multi-line-children", verifFileHasTightBeforeIndentedInline(x))
 	symAssert(len(lit0) == len(lit1), "same number of static literals")
 	symAssertEq(verifMaskPositions(g1), verifMaskPositions(g0), "generated code from the formatted file equals the original's (positions masked)")
 }
